@@ -167,11 +167,14 @@ inline std::string rows_json(const std::vector<std::vector<long long>>& v) {
 }
 
 // FL: 0 set, 1 multiset, 2 map, 3 multimap
-template <int FL, int LS, int IS, bool BIN, bool DESC, bool TRK>
+// TRK: 0 = int keys and int data, 1 = lifetime-tracked keys and data, 2 = int keys with lifetime-tracked data (maps only; a trivially
+// destructible key next to a heap-owning mapped value: round-4 seeded change "free_node skips the destructor when the key is trivial")
+template <int FL, int LS, int IS, bool BIN, bool DESC, int TRK>
 struct Runner {
     static const bool IsMap = FL >= 2, Multi = (FL & 1) != 0;
-    using KT = typename std::conditional<TRK, Tracked, int>::type;
-    using DT = typename std::conditional<TRK, Tracked, int>::type;
+    using KT = typename std::conditional<TRK == 1, Tracked, int>::type;
+    using DT = typename std::conditional<TRK != 0, Tracked, int>::type;
+    static const int TrkKey = TRK == 1 ? 1 : 0, TrkData = (FL >= 2 && TRK != 0) ? 1 : 0;     // tracked instances per leaf slot / inner slot
     using Cmp = typename std::conditional<DESC, KGreater, KLess>::type;
     using SetV = KT;
     using MapV = std::pair<KT, DT>;
@@ -269,13 +272,13 @@ struct Runner {
          .raw("counted", jarr(std::vector<long long>{f.walk_items, f.walk_leaves, f.walk_inner})).num("chain_leaves", f.chain_leaves)
          .boolean("links", f.head_ok && f.tail_ok && f.levels_ok).num("size", (long long)x.size()).boolean("verify", ver)
          .num("alloc_live", (long long)aledger().live.size()).num("alloc_err", aledger().errors).num("ledger_err", L.nerr)
-         .boolean("tracked", TRK).num("elems_in_nodes", in_nodes);
+         .boolean("tracked", TrkKey + TrkData > 0).num("elems_in_nodes", in_nodes);
         // every container's nodes: needed for the allocator clause (live blocks = nodes of both containers)
         long long other_nodes = 0;
         for (int j = 1; j <= 2; ++j) if (j != ci && c[j]) { auto s2 = c[j]->get_stats(); other_nodes += (long long)(s2.leaves + s2.inner_nodes); }
         long long other_cap = 0;
-        for (int j = 1; j <= 2; ++j) if (j != ci && c[j]) { auto s2 = c[j]->get_stats(); other_cap += (long long)(s2.leaves * LS * (IsMap ? 2 : 1) + s2.inner_nodes * IS); }
-        e.num("other_nodes", other_nodes).num("other_cap", other_cap).num("elem_per_leaf", (long long)LS * (IsMap ? 2 : 1)).num("elem_per_inner", IS);
+        for (int j = 1; j <= 2; ++j) if (j != ci && c[j]) { auto s2 = c[j]->get_stats(); other_cap += (long long)(s2.leaves * LS * (TrkKey + TrkData) + s2.inner_nodes * IS * TrkKey); }
+        e.num("other_nodes", other_nodes).num("other_cap", other_cap).num("elem_per_leaf", (long long)LS * (TrkKey + TrkData)).num("elem_per_inner", (long long)IS * TrkKey);
         if (!ver) { std::string w; for (char ch : why.substr(0, 120)) w += (std::isalnum((unsigned char)ch) || ch == ' ' || ch == '_' || ch == '.' || ch == ':' || ch == '(' || ch == ')' || ch == '>' || ch == '<' || ch == '=' || ch == '-') ? ch : ' '; e.str("why", w); }
         e.emit(out);
     }
@@ -372,16 +375,16 @@ void run_flavour(Out& out, int cfg, bool shapes, const std::vector<long long>& p
     std::istringstream is(script);
 #define CFG(n, LS, IS, BIN, DESC, TRK) case n: { Runner<FL, LS, IS, BIN, DESC, TRK> r(out, shapes); r.probe = probe; r.run(is); break; }
     switch (cfg) {
-        CFG(0, 4, 4, false, false, true)
-        CFG(1, 4, 5, true, true, true)
-        CFG(2, 5, 4, false, false, false)
-        CFG(3, 6, 7, true, false, true)
-        CFG(4, 7, 4, false, true, true)
-        CFG(5, 8, 8, true, false, false)
-        CFG(6, 16, 4, true, false, true)
-        CFG(7, 4, 16, false, true, false)
-        CFG(8, 5, 5, true, false, true)
-        CFG(9, 9, 6, false, false, true)
+        CFG(0, 4, 4, false, false, 1)
+        CFG(1, 4, 5, true, true, 1)
+        CFG(2, 5, 4, false, false, 2)
+        CFG(3, 6, 7, true, false, 1)
+        CFG(4, 7, 4, false, true, 1)
+        CFG(5, 8, 8, true, false, 0)
+        CFG(6, 16, 4, true, false, 1)
+        CFG(7, 4, 16, false, true, 2)
+        CFG(8, 5, 5, true, false, 1)
+        CFG(9, 9, 6, false, false, 1)
         default: break;
     }
 #undef CFG
